@@ -307,7 +307,7 @@ Borrow(cfg, s, u, lid, pid, ca, cin, la, loan, stable, env) ==
   LET l == GetId(s.lends, lid) IN
   IF l.o # u \/ ~HasPair(cfg, pid) THEN Fail(s) ELSE
   LET pr == PairC(cfg, pid) IN
-  IF pid \notin PairsOf(cfg, pr.ain, l.pool) \/ ca # pr.ain \/ ~PriceOk(s, pr.aout) \/ ~MinLoanOk(cfg, s, pr.aout, loan) THEN Fail(s)
+  IF pid \notin PairsOf(cfg, pr.ain, l.pool) \/ ca # pr.ain \/ l.asset # pr.ain \/ ~PriceOk(s, pr.aout) \/ ~MinLoanOk(cfg, s, pr.aout, loan) THEN Fail(s)
   ELSE IF UserBorrowOnPair(s, u, pid) # {}
   THEN (* DepositDraw on the user's existing position of this pair *)
        LET bid == (CHOOSE b \in UserBorrowOnPair(s, u, pid) : TRUE).id
